@@ -94,6 +94,16 @@ class GenKill(BaseException):
     """Unwinds the producer thread of a generator that is abandoned by its consumer."""
 
 
+class GenList(list):
+    """The value of a generator expression: its elements, evaluated eagerly and in order (a list for every model that walks it); next() consumes it from the
+    front like the generator it stands for."""
+
+    def __next__(self):
+        if not self:
+            raise StopIteration
+        return self.pop(0)
+
+
 class LazyGen:
     """A generator object of an interpreted generator function.
 
@@ -1760,7 +1770,7 @@ class Interp:
             return dict(out)
         if T is ast.SetComp:
             return set(out)
-        return out
+        return GenList(out) if T is ast.GeneratorExp else out
 
     def eval_fstring(self, e, env, mod):
         parts = []
